@@ -14,7 +14,9 @@ import re
 ID = "C05"
 RULE = ("layouts of 1-16 keep services with 0-3 mounts each (random stream), a 'concentrated' stream (3-6 services, "
         "desired 2-4 with about that many replicas sitting on multi-mount servers with blank device ids, pulls "
-        "pending, read-only replica holders, one or two classes) plus an exhaustive product over "
+        "pending, read-only replica holders, one or two classes), a multi-block stream (op cs: 1-4 blocks gathered by "
+        "the real BlockStateMap from index entries and 0-3 collections each, either arrival order, run through "
+        "ComputeChangeSets and collectStatistics) plus an exhaustive product over "
         "<=3 services x <=2 mounts of structure x device sharing x class assignment x replica subset x desired "
         "replication 0-3 per class (thorough); read-only flags on mounts and services, replication 1-3 (rarely "
         "<=0), device ids blank/unique/shared across servers, mtimes old/new/colliding, random block hashes so "
@@ -30,6 +32,9 @@ TRUSTED = ["executable MD5 in Lean (ArvVerif/Base/MD5.lean) for rendezvous ranks
            "the physical-device oracle in harness/props/C05.py (written from the property text)"]
 
 DRIVERS = {"kb": {"kind": "gotest", "pkg": "services/keep-balance", "test": "TestVerifC05", "min_chunk": 2000}}
+# ops: `bb` = one block against a layout (cleanupMounts, setupLookupTables, balanceBlock);
+#      `cs` = several blocks gathered by the real BlockStateMap (AddReplicas / IncreaseDesired in either
+#             order), ComputeChangeSets (worker pool) and collectStatistics (lost-blocks report, counters)
 
 RE_HASH = re.compile(r"^[0-9a-f]{32}$")
 RE_INT = re.compile(r"^-?[0-9]{1,18}$")
@@ -50,9 +55,26 @@ def parse_case(case):
     f = case.split(" ")
     if len(f) != 6 or f[0] != "bb" or not RE_HASH.match(f[1]) or not RE_INT.match(f[2]):
         return None
+    svcs = _parse_services(f[3])
+    if svcs is None:
+        return None
+    reps = _parse_reps(f[4], svcs)
+    if reps is None:
+        return None
+    desired = {}
+    if f[5] != "-":
+        for d in f[5].split(","):
+            kv = d.split("=")
+            if len(kv) != 2 or not RE_CLASS.match(kv[0]) or kv[0].endswith("!") or not RE_NAT.match(kv[1]) or kv[0] in desired:
+                return None
+            desired[kv[0]] = int(kv[1])
+    return {"hash": f[1], "min": int(f[2]), "svcs": svcs, "reps": reps, "desired": desired}
+
+
+def _parse_services(spec):
     svcs, seen = [], set()
-    if f[3] != "-":
-        for s in f[3].split(";"):
+    if spec != "-":
+        for s in spec.split(";"):
             p = s.split("/")
             if len(p) != 3 or not RE_UUID.match(p[0]) or p[1] not in "01" or len(p[1]) != 1 or p[0] in seen:
                 return None
@@ -72,9 +94,13 @@ def parse_case(case):
                     mounts.append({"dev": "" if q[0] == "-" else q[0], "ro": q[1] == "1", "repl": int(q[2]),
                                    "classes": classes or ["default"]})
             svcs.append({"uuid": p[0], "ro": p[1] == "1", "mounts": mounts})
+    return svcs
+
+
+def _parse_reps(spec, svcs):
     reps = []
-    if f[4] != "-":
-        for r in f[4].split(","):
+    if spec != "-":
+        for r in spec.split(","):
             at = r.split("@")
             if len(at) != 2 or not RE_INT.match(at[1]):
                 return None
@@ -85,14 +111,41 @@ def parse_case(case):
             if si >= len(svcs) or mi >= len(svcs[si]["mounts"]):
                 return None
             reps.append((si, mi, int(at[1])))
-    desired = {}
-    if f[5] != "-":
-        for d in f[5].split(","):
-            kv = d.split("=")
-            if len(kv) != 2 or not RE_CLASS.match(kv[0]) or kv[0].endswith("!") or not RE_NAT.match(kv[1]) or kv[0] in desired:
-                return None
-            desired[kv[0]] = int(kv[1])
-    return {"hash": f[1], "min": int(f[2]), "svcs": svcs, "reps": reps, "desired": desired}
+    return reps
+
+
+def parse_cs(case):
+    """cs <min> <order> <services> <blocks> -> dict or None"""
+    f = case.split(" ")
+    if len(f) != 5 or f[0] != "cs" or not RE_INT.match(f[1]) or f[2] not in ("ri", "ir") or not f[4]:
+        return None
+    svcs = _parse_services(f[3])
+    if svcs is None:
+        return None
+    blocks, seen = [], set()
+    for b in f[4].split("~"):
+        p = b.split(":")
+        if len(p) != 3 or not RE_HASH.match(p[0]) or p[0] in seen:
+            return None
+        seen.add(p[0])
+        reps = _parse_reps(p[1], svcs)
+        if reps is None:
+            return None
+        colls = []
+        if p[2] != "-":
+            for c in p[2].split("&"):
+                q = c.split("*")
+                if len(q) != 3 or not RE_NAT.match(q[0]) or not RE_NAT.match(q[1]):
+                    return None
+                classes = []
+                if q[2] != "-":
+                    for cl in q[2].split("+"):
+                        if not RE_CLASS.match(cl) or cl.endswith("!"):
+                            return None
+                        classes.append(cl)
+                colls.append((int(q[0]), int(q[1]), classes))
+        blocks.append({"hash": p[0], "reps": reps, "colls": colls})
+    return {"min": int(f[1]), "order": f[2], "svcs": svcs, "blocks": blocks}
 
 
 def mount_uuid(si, mi):
@@ -100,16 +153,16 @@ def mount_uuid(si, mi):
 
 
 def parse_outcome(s):
-    """One outcome `lost=.. T=.. P=.. bs=.. cs=..` -> dict (trashes: {(si,uuid,mtime)...} as list, pulls list)."""
+    """One outcome `lost=.. T=.. P=.. bs=.. cs=..` (bb) or `lost=.. T=.. P=.. refs=..` (cs) -> dict."""
     kv = {}
     for tok in s.strip().split(" "):
         if "=" not in tok:
             return None
         k, v = tok.split("=", 1)
         kv[k] = v
-    if set(kv) != {"lost", "T", "P", "bs", "cs"}:
+    if set(kv) != {"lost", "T", "P", "bs", "cs"} and set(kv) != {"lost", "T", "P", "refs"}:
         return None
-    out = {"lost": kv["lost"], "bs": kv["bs"], "cs": kv["cs"], "T": [], "P": []}
+    out = {"lost": kv["lost"], "bs": kv.get("bs"), "cs": kv.get("cs"), "refs": kv.get("refs"), "T": [], "P": []}
     for key in ("T", "P"):
         if kv[key] == "-":
             continue
@@ -157,9 +210,33 @@ def _canon_outcome(o, with_stats):
     return (o["lost"], tuple(t), tuple(p), (o["bs"], o["cs"]) if with_stats else None)
 
 
+def _compare_cs(case, impl, model):
+    ip, mp = impl.split(" # "), model.split(" # ")
+    if len(ip) != 3 or len(mp) != 2 or ip[0] != mp[0]:
+        return False
+    ib, mb = ip[1].split(" ~ "), mp[1].split(" ~ ")
+    if len(ib) != len(mb):
+        return False
+    try:
+        for i, m in zip(ib, mb):
+            alts = m.split(" | ")
+            if i == "absent" or "absent" in alts:
+                if alts != ["absent"] or i != "absent":
+                    return False
+                continue
+            key = lambda o: _canon_outcome(o, False) + (o["refs"],)
+            if key(parse_outcome(i)) not in {key(parse_outcome(a)) for a in alts}:
+                return False
+    except Exception:
+        return False
+    return True
+
+
 def compare(case, impl, model):
     if impl == "bad-op" or model == "bad-op":
         return impl == model
+    if case.startswith("cs "):
+        return _compare_cs(case, impl, model)
     si, sm = split_result(impl), split_result(model)
     if si is None or sm is None or len(si[1]) != 1:
         return False
@@ -212,11 +289,63 @@ def phys_repl(lay, cls, holding):
 
 
 def oracle(case, impl):
-    lay = parse_case(case)
-    if impl.startswith(("panic", "CRASH", "json-error")):
+    if impl.startswith(("panic", "CRASH", "json-error", "lost-block-reported-twice")):
         return "driver: " + impl[:200]
+    if case.startswith("cs "):
+        return _oracle_cs(case, impl)
+    lay = parse_case(case)
     if lay is None:
         return None if impl == "bad-op" else "driver: malformed case was not rejected"
+    return _oracle_block(lay, impl)
+
+
+def _oracle_cs(case, impl):
+    """ComputeChangeSets over several blocks gathered by the real BlockStateMap: every block is judged
+    like a single-block case, with desired replication of a class = the largest replication any
+    collection referencing the block asks for in that class (no class listed = default); the
+    lost-blocks report names each lost block once with the collections that reference it; the
+    statistics count what the change sets hold."""
+    cs = parse_cs(case)
+    if cs is None:
+        return None if impl == "bad-op" else "driver: malformed case was not rejected"
+    ip = impl.split(" # ")
+    if len(ip) != 3:
+        return "driver: unparsable result " + impl[:100]
+    blocks = ip[1].split(" ~ ")
+    if len(blocks) != len(cs["blocks"]):
+        return "driver: block count"
+    nlost = ntrash = npull = 0
+    for b, o in zip(cs["blocks"], blocks):
+        if not b["reps"] and not b["colls"]:
+            if o != "absent":
+                return "driver: unmentioned block present"
+            continue
+        if o == "absent":
+            return "lost: a block with index entries or references is missing from the result"
+        desired = {}
+        for _pdh, n, classes in b["colls"]:
+            for c in (classes or ["default"]):
+                desired[c] = max(desired.get(c, 0), n)
+        lay = {"hash": b["hash"], "min": cs["min"], "svcs": cs["svcs"], "reps": b["reps"], "desired": desired}
+        po = parse_outcome(o)
+        if po is None:
+            return "driver: unparsable block outcome"
+        why = _oracle_block(lay, ip[0] + " # " + o.rsplit(" refs=", 1)[0] + " bs=0,0,0,0 cs=-")
+        if why:
+            return why
+        if po["lost"] == "1":
+            nlost += 1
+            want = ",".join(sorted({"pdh%d" % pdh for pdh, _n, _c in b["colls"]})) or "-"
+            if po["refs"] != want:
+                return "lost: the lost-blocks report does not list the referencing collections (%s, expected %s)" % (po["refs"], want)
+        ntrash += len(po["T"])
+        npull += len(po["P"])
+    if ip[2] != "stats=lost:%d,trashes:%d,pulls:%d" % (nlost, ntrash, npull):
+        return "lost: statistics disagree with the change sets and the lost-blocks report (%s)" % ip[2]
+    return None
+
+
+def _oracle_block(lay, impl):
     sr = split_result(impl)
     if sr is None or len(sr[1]) != 1:
         return "driver: unparsable result " + impl[:100]
@@ -518,7 +647,63 @@ def _concentrated_case(rng):
     return fmt_case(_hash(rng), minm, svcs, reps, desired)
 
 
+def _cs_case(rng):
+    """Several blocks against one layout, gathered through the real BlockStateMap: the first block
+    re-uses a generated single-block case (its desired levels spread over 1-3 collections), the others
+    get random index entries and 0-3 referencing collections (replication 0-4, class lists drawn from
+    the classes the layout offers; none = default)."""
+    base = _concentrated_case(rng) if rng.random() < 0.4 else _random_case(rng, 6)
+    lay = parse_case(base)
+    f = base.split(" ")
+    known = sorted(known_classes(lay))
+    allm = [(si, mi) for si, s in enumerate(lay["svcs"]) for mi in range(len(s["mounts"]))]
+    minm = lay["min"]
+    blocks = []
+    npdh = [0]
+
+    def coll(n, classes):
+        npdh[0] += 1
+        return "%d*%d*%s" % (rng.choice([npdh[0], npdh[0], rng.randint(1, 4)]), n, "+".join(classes) or "-")
+
+    colls = []
+    for c, n in lay["desired"].items():
+        if c not in known:
+            continue
+        colls.append(coll(n, [] if c == "default" and rng.random() < 0.5 else [c]))
+        if n > 0 and rng.random() < 0.4:
+            colls.append(coll(rng.randint(0, n), [c]))
+    rng.shuffle(colls)
+    blocks.append("%s:%s:%s" % (lay["hash"], f[4], "&".join(colls) or "-"))
+    for _ in range(rng.choice([0, 1, 1, 2, 3])):
+        h = _hash(rng)
+        reps = []
+        dens = rng.choice([0.0, 0.0, 0.3, 0.6, 1.0])
+        for si, mi in allm:
+            if rng.random() < dens:
+                reps.append("%d.%d@%d" % (si, mi, rng.choice([minm - 100, minm - 1, minm, minm + 5, minm - 2])))
+        rng.shuffle(reps)
+        colls = []
+        for _ in range(rng.choice([0, 1, 1, 2, 3])):
+            k = rng.choice([0, 1, 1, 2])
+            colls.append(coll(rng.choice([0, 1, 2, 2, 3, 4]), rng.sample(known, min(k, len(known)))))
+        blocks.append("%s:%s:%s" % (h, ",".join(reps) or "-", "&".join(colls) or "-"))
+    rng.shuffle(blocks)
+    return "cs %d %s %s %s" % (minm, rng.choice(["ri", "ir"]), f[3], "~".join(blocks))
+
+
 def _malformed(rng, good):
+    if good.startswith("cs "):
+        g = good.split(" ")
+        r = rng.randrange(4)
+        if r == 0:
+            g[2] = "rr"
+        elif r == 1:
+            g[4] = g[4] + "~" + g[4].split("~")[0]      # duplicate block
+        elif r == 2:
+            g[4] = g[4].replace(":", ";", 1)
+        else:
+            g[1] = "x1"
+        return " ".join(g)
     f = good.split(" ")
     r = rng.randrange(10)
     if r == 0:
@@ -647,11 +832,15 @@ def generate(rng, tier):
             cases.append(_spec_case(rng, sp))
         for _ in range(2500):
             cases.append(_concentrated_case(rng))
+        for _ in range(1500):
+            cases.append(_cs_case(rng))
     else:
         for _ in range(150000):
             cases.append(_random_case(rng, 16))
         for _ in range(100000):
             cases.append(_concentrated_case(rng))
+        for _ in range(60000):
+            cases.append(_cs_case(rng))
         # exhaustive over structure x sharing x classes x replica subset x desired for <= 5 mounts
         # (454 502 combinations), every 3rd combination (offset by the seed) for 6 mounts (1 217 360);
         # flags, replication, mtimes and the block hash are drawn at random for each combination
@@ -662,7 +851,7 @@ def generate(rng, tier):
                 cases.append(_spec_case(rng, sp))
     nbad = 60 if tier == "quick" else 600
     for _ in range(nbad):
-        cases.append(_malformed(rng, rng.choice(cases[:2000])))
+        cases.append(_malformed(rng, rng.choice(cases[:2000] + cases[-500:])))
     return cases
 
 
@@ -678,6 +867,9 @@ def _rank_order(lay):
 
 
 def nontrivial_key(case, impl):
+    if case.startswith("cs "):
+        cs = parse_cs(case)
+        return case if cs and any(b["reps"] or b["colls"] for b in cs["blocks"]) else None
     lay = parse_case(case)
     if lay is None:
         return None
@@ -692,6 +884,10 @@ def describe(cases, impl):
          "with_classes": 0, "with_ro": 0, "no_replica": 0, "outcomes": {"trash": 0, "pull": 0, "lost": 0, "none": 0},
          "desired_max": {}}
     for c, r in zip(cases, impl):
+        if c.startswith("cs ") and parse_cs(c) is not None:
+            d["cs_cases"] = d.get("cs_cases", 0) + 1
+            d["cs_blocks"] = d.get("cs_blocks", 0) + len(parse_cs(c)["blocks"])
+            continue
         lay = parse_case(c)
         if lay is None:
             d["malformed"] += 1
@@ -723,6 +919,8 @@ def describe(cases, impl):
 
 
 def neighbours(case, rng):
+    if case.startswith("cs "):
+        return [_cs_case(rng) for _ in range(5)]
     lay = parse_case(case)
     if lay is None:
         return [_random_case(rng, 4) for _ in range(5)]
